@@ -45,12 +45,12 @@ var wprotos = []wproto{
 	{"sFlow", "vflow/sflow.go", "sFlowWorker", "SFlow", "sFlowBuffer", "sFlowUDPCh", "sFlowMQCh", "sFlowMCh", "sFlowMirrorEnabled", "SFlowUDPSize", "SFUDPMsg", "s"},
 }
 
-var wsRe = regexp.MustCompile(`\s+`)
+var wirWsRe = regexp.MustCompile(`\s+`)
 
 func nodeSrc(fset *token.FileSet, n ast.Node) string {
 	var b bytes.Buffer
 	printer.Fprint(&b, fset, n)
-	return strings.TrimSpace(wsRe.ReplaceAllString(b.String(), " "))
+	return strings.TrimSpace(wirWsRe.ReplaceAllString(b.String(), " "))
 }
 
 type wgen struct {
